@@ -404,7 +404,10 @@ func loadView(ctx context.Context, scope *ReferenceScope, tableExpr parser.Query
 		}
 
 		if view.FileInfo != nil {
-			view.FileInfo.ViewType = ViewTypeInlineTable
+			// The file information is shared with the cached table the sub-query read from: change a copy.
+			fileInfo := *view.FileInfo
+			fileInfo.ViewType = ViewTypeInlineTable
+			view.FileInfo = &fileInfo
 		}
 	}
 
